@@ -73,20 +73,35 @@ def pol(line):
 
 def first_problem(lines, c, l, rc):
     """index and kind of the first line where something is wrong, or None.
-    kinds: REFBAD, FLAGBAD, CRASH (sanitizer / abort / short output), DIFF (model != code)"""
+    kinds: ALLOCBAD (ledger allocator got a wrong old_size), REFBAD, FLAGBAD, CRASH (sanitizer / abort /
+    short output), DIFF (model != code), EVDIFF (allocator-call arguments differ from the C17 VarrAlloc model
+    although the capacity agrees, i.e. not a mere growth-policy drift)"""
     n = len(lines)
+    drift = False
     for i in range(n):
         if i >= len(c):
             return i, "CRASH"
         ci = c[i]
+        if lines[i].startswith("R "):
+            drift = False
         if " |" in ci:
             a = ci.split(" |", 1)[1]
+            if "ALLOCBAD" in a:
+                return i, "ALLOCBAD"
             if "REFBAD" in a:
                 return i, "REFBAD"
             if "FLAGBAD" in a:
                 return i, "FLAGBAD"
         if i >= len(l) or left(ci) != POL.sub("", l[i]):
             return i, "DIFF"
+        if "pol:ev" in ci or "pol:ev" in l[i]:
+            pc, pl = pol(ci), pol(l[i])
+            if [t for t in pc if "pol:ev" not in t] != [t for t in pl if "pol:ev" not in t]:
+                drift = True
+            elif pc != pl and not drift:
+                return i, "EVDIFF"
+        elif "pol:c" in ci and pol(ci) != pol(l[i]):
+            drift = True
     if rc != 0:
         return n - 1, "CRASH"
     return None
@@ -104,6 +119,8 @@ def isolate(lines, idx):
     s = idx
     while s > 0 and not lines[s].startswith("R "):
         s -= 1
+    if s > 0 and lines[s - 1].startswith("E "):
+        s -= 1
     return lines[s:idx + 1]
 
 
@@ -117,7 +134,10 @@ def shrink(rn, seq, flavour, kind, sig, budget=160):
         if kind == "FLAGBAD" and flag_signature(c[p[0]]) != sig:
             return False
         return True
-    head, body = ([seq[0]], seq[1:]) if seq and seq[0].startswith("R ") else ([], seq)
+    nh = 0
+    while nh < len(seq) and nh < 2 and seq[nh][:2] in ("R ", "E "):
+        nh += 1
+    head, body = seq[:nh], seq[nh:]
     n, used = 2, 0
     while len(body) >= 2 and used < budget:
         chunk = max(1, len(body) // n)
@@ -320,14 +340,15 @@ def varr_alphabet():
     return A
 
 
-def gen_varr_random(rng, nops, checked):
+def gen_varr_random(rng, nops, checked, small=False):
+    """small: element values 0..199 only (fit every element size of the allocator harness)"""
     seq = [f"R 1 {rng.choice([0, 1, 2, 3, 64])} 1"]
     n = 0
     for _ in range(nops):
         r = rng.below(100)
         bad = checked and rng.chance(1, 40)
         if r < 38 and n < 20000:
-            seq.append(f"vpush {rng.below(2000) - 1000}"); n += 1
+            seq.append(f"vpush {rng.below(200) if small else rng.below(2000) - 1000}"); n += 1
         elif r < 44 and n < 20000:
             k = rng.below(9)
             seq.append("vpusharr " + " ".join(str(rng.below(100)) for _ in range(k))); n += k
@@ -346,7 +367,7 @@ def gen_varr_random(rng, nops, checked):
             if bad:
                 seq.append(f"vset {n + rng.below(3)} 1")
             elif n > 0:
-                seq.append(f"vset {rng.below(n)} {rng.below(1000)}")
+                seq.append(f"vset {rng.below(n)} {rng.below(200 if small else 1000)}")
         elif r < 90:
             if bad:
                 seq.append(f"vtrunc {n + 1 + rng.below(3)}")
@@ -480,7 +501,7 @@ class Stats:
         nt = self.nontrivial
         for ln, out in zip(lines, c):
             ch = ln[0]
-            if ch == "R":
+            if ch == "R" or ch == "E":
                 continue
             self.evals += 1
             sp = ln.find(" ")
@@ -546,16 +567,19 @@ def run(ck):
     t0 = time.time()
     rn_exes = {}
     jobs = [("c19_sets_chk", ["harness/c19_sets.c"], ["-O1", "-g"] + SAN),
-            ("c19_sets_ndebug", ["harness/c19_sets.c"], ["-O2", "-g", "-DNDEBUG"] + SAN)]
+            ("c19_sets_ndebug", ["harness/c19_sets.c"], ["-O2", "-g", "-DNDEBUG"] + SAN),
+            ("c19_seq_alloc_chk", ["harness/c19_seq_alloc.c"], ["-O1", "-g"] + SAN),
+            ("c19_seq_alloc_ndebug", ["harness/c19_seq_alloc.c"], ["-O2", "-g", "-DNDEBUG"] + SAN)]
     built = ck.cc_par(jobs)
-    for name, flav in (("c19_sets_chk", "chk"), ("c19_sets_ndebug", "ndebug")):
+    for name, flav in (("c19_sets_chk", "chk"), ("c19_sets_ndebug", "ndebug"),
+                       ("c19_seq_alloc_chk", "alloc_chk"), ("c19_seq_alloc_ndebug", "alloc_ndebug")):
         if built.get(name) is None:
             ck.broken_ties.append({"kind": "harness-compile", "name": name, "log": getattr(ck, "last_cc_log", "")[-1500:]})
         else:
             rn_exes[flav] = built[name]
     if not os.path.exists(DRV):
         ck.broken_ties.append({"kind": "driver-missing", "name": "mirdrv_c19b"})
-    if len(rn_exes) < 2 or not os.path.exists(DRV):
+    if len(rn_exes) < 4 or not os.path.exists(DRV):
         ck.stage("c19_sets", ok=False)
         return
     # private copies: vf.cc drops same-name binaries built from another tree (concurrent VERIF_REPO runs)
@@ -610,6 +634,14 @@ def _run(ck, rn_exes, t0):
                 state["viol"] += 1
             else:
                 state["known"] = state.get("known", 0) + 1
+        elif kind == "ALLOCBAD":
+            rep["spec_verdict"] = ("mir-varr.h handed MIR_realloc an old_size that is not the size of the block "
+                                   "(premise of C17.varr_realloc_old_size); an allocator that trusts old_size, as "
+                                   "CUSTOM-ALLOCATORS.md allows, then loses or over-reads elements")
+            ck.violation(rep, what=f"{seq[i2].split()[0]} (element size {seq[0].split()[-1] if seq[0].startswith('E ') else '?'}): "
+                                   f"wrong old_size passed to MIR_realloc: {c2[i2] if i2 < len(c2) else ''}",
+                         signature=None)
+            state["viol"] += 1
         elif kind == "REFBAD":
             rep["spec_verdict"] = "real header disagrees with the abstract set / sequence / list specification"
             ck.violation(rep, what=f"{seq[i2].split()[0]}: real header differs from the specification: "
@@ -775,6 +807,36 @@ def _run(ck, rn_exes, t0):
     exh["dlist_histories"] = {"nodes": 4, "max_len": depth, "edges": nedges, "nodes5_edges": n5}
     pol_mismatch += process(batches, "dlist-dfs")
 
+    #   2f. VARR on the ledger allocator, element sizes 1/2/8/16/24: growth by push / push_arr / expand / tailor
+    aa = ["vpush 7", "vpusharr 4 5 6", "vpusharr 1", "vexpand 5", "vexpand 9", "vtailor 2", "vtailor 7", "vpop",
+          "vtrunc 1", "vget 0", "vset 0 9"]
+    ka = 3 if quick else 4
+    na = 0
+    def agen():
+        nonlocal na
+        i = 0
+        for esz in (1, 2, 8, 16, 24):
+            for init in (1, 2, 3, 0):
+                for k in range(1, ka + 1):
+                    if init == 0 and k > 2:
+                        continue
+                    seqs = [[f"E {esz}"] + sq for sq in gen_all_sequences(aa, k, f"R 1 {init} 1", ["vdump"])]
+                    na += len(seqs)
+                    for ch in chunks(iter(seqs), 4000):
+                        i += 1
+                        yield ("alloc_chk" if i % 3 else "alloc_ndebug", ch)
+    pol_mismatch += process(agen(), "varr-alloc-all-seq")
+    exh["varr_alloc_all_sequences"] = {"alphabet": len(aa), "max_len": ka, "element_sizes": [1, 2, 8, 16, 24],
+                                       "initial_sizes": [1, 2, 3, 0], "sequences": na}
+    batches = []
+    nar = (10, 3000) if quick else (30, 40000)
+    for i in range(nar[0]):
+        r = SplitMix(ck.rng.next())
+        esz = (1, 2, 8, 16, 24)[i % 5]
+        batches.append(("alloc_chk" if i % 2 == 0 else "alloc_ndebug",
+                        [[f"E {esz}"] + gen_varr_random(r, nar[1], False, small=True)]))
+    pol_mismatch += process(batches, "varr-alloc-random")
+
     # ---- 3. long random histories
     rng = ck.rng
     nb = (6, 6000) if quick else (28, 60000)
@@ -840,6 +902,8 @@ def _run(ck, rn_exes, t0):
         "assert-enabled VARR call fails its `varr->varr` assertion); never generated",
         "[sets] VARR slots exposed by a growing VARR_TAILOR are indeterminate: the model leaves them unspecified "
         "and the tie does not compare them",
+        "[sets] allocator tie: the custom allocator of harness/c19_seq_alloc.c stands for every allocator of the "
+        "documented shape (realloc trusts old_size); element types are 1/2/8-byte integers and 16/24-byte structs",
         "[sets] VARR capacity growth policy is compared separately (reported, not a failure) because it is not "
         "part of the sequence semantics",
     ]
